@@ -224,3 +224,83 @@ def run_threshold(ctx, prog, rid, file_pred, what, floor=1):
                    where=f.loc(c['i']))
     if n < floor:
         raise AnalysisBroken('%s: expected >= %d setReceiveCallback registration(s), found %d' % (rid, floor, n))
+
+
+def fixed_array_writes(f):
+    """(stmt, array decl, extent, offset expr id or None, length expr id or None, kind) for writes into fixed-size local arrays: memcpy/memmove/memset(arr + off, ..., n),
+    calls handing `arr + off` and a length to a reader (fetch(ptr, len)), and arr[idx] = ... stores"""
+    import re
+    arrs = {}
+    for st in f.stmts:
+        if st and st['k'] == 'DeclStmt':
+            for d in st['decls']:
+                m = re.search(r'\[(\d+)\]$', (d.get('ct') or d.get('t') or '').strip())
+                if m and not d.get('vla'):
+                    arrs[d['d']] = (d, int(m.group(1)))
+    out = []
+    def base_off(e):
+        x = f.s(f.strip_casts(e))
+        if x is None:
+            return None, None
+        if x['k'] == 'DeclRefExpr' and x.get('d') in arrs:
+            return x['d'], None
+        if x['k'] == 'BinaryOperator' and x.get('op') == '+':
+            a, b = f.s(f.strip_casts(x['ch'][0])), f.s(f.strip_casts(x['ch'][1]))
+            if a is not None and a['k'] == 'DeclRefExpr' and a.get('d') in arrs:
+                return a['d'], x['ch'][1]
+            if b is not None and b['k'] == 'DeclRefExpr' and b.get('d') in arrs:
+                return b['d'], x['ch'][0]
+        return None, None
+    for st in f.stmts:
+        if not st:
+            continue
+        if st['k'] in q.CALL_KINDS and st.get('args'):
+            if st.get('callee') in ('memcpy', 'memmove', 'memset', 'strncpy') and len(st['args']) >= 3:
+                d, off = base_off(st['args'][0])
+                if d is not None:
+                    out.append((st, arrs[d][0], arrs[d][1], off, st['args'][2], st['callee']))
+            elif st.get('fn') in ('fetch', 'read', 'recv', 'fetchNoCopy') and len(st['args']) >= 2:
+                d, off = base_off(st['args'][0])
+                if d is not None:
+                    out.append((st, arrs[d][0], arrs[d][1], off, st['args'][1], st['fn']))
+        if st['k'] in ('BinaryOperator', 'CompoundAssignOperator') and st.get('op', '').endswith('=') and st['op'] not in ('==', '!=', '<=', '>='):
+            lhs = f.s(f.strip_casts(st['ch'][0]))
+            if lhs is not None and lhs['k'] == 'ArraySubscriptExpr':
+                b = f.s(f.strip_casts(lhs['ch'][0]))
+                if b is not None and b['k'] == 'DeclRefExpr' and b.get('d') in arrs and (f.s(lhs['ch'][1]) or {}).get('cv') is None:
+                    out.append((st, arrs[b['d']][0], arrs[b['d']][1], lhs['ch'][1], None, '[]'))
+    return out
+
+
+def prove_fixed_write(f, w):
+    """offset + length <= extent (or index < extent) from the linear facts in force"""
+    from . import bounds
+    from .affine import Aff
+    st, decl, extent, off, ln, kind = w
+    p = q.pt(f, st) if st['k'] in q.CALL_KINDS else q.pt_or_term(f, st)
+    o = bounds.form(f, off, p) if off is not None else Aff(0)
+    l_ = bounds.form(f, ln, p) if ln is not None else Aff(1)
+    if o is None or l_ is None:
+        return False, 'the %s is not a linear quantity (%s)' % ('offset' if o is None else 'length', f.path(off if o is None else ln))
+    facts = bounds.facts_at(f, p)
+    ok = bounds.decide(Aff(extent) - o - l_, facts, bounds.unsigned_syms(f))
+    return ok, 'offset %r + length %r <= %d' % (o, l_, extent) if ok else 'the guards in force (%s) do not give offset %r + length %r <= %d' % ('; '.join('%r >= 0' % g for g in facts[:4]) or 'none', o, l_, extent)
+
+
+def run_fixed(ctx, prog, rid, funcs, what):
+    ctx.rule(rid, 'A9f fixed buffers: on the %s every write into a fixed-size local array at a variable offset or with a variable length (memcpy & co., a reader handed '
+             'array + offset, array[index] = ...) is proven inside the array from the linear facts in force there; positive and negative probes in engine/probes.cc are '
+             'classified on every run (expected count on the unchanged tree may be zero)' % what, floor=1)
+    pp = extract([], extra_units=[probe_unit()])
+    got = {}
+    for g in pp.funcs.values():
+        if g.name.startswith('verif_probe::fixed_'):
+            got[g.name.split('::')[-1]] = [prove_fixed_write(g, w)[0] for w in fixed_array_writes(g)]
+    if got != {'fixed_unbounded': [False], 'fixed_bounded': [True]}:
+        raise AnalysisBroken('fixed-array write detector self-check failed: %s' % got)
+    ctx.ob(rid, 'probes', True, 'detector classified its probes (unguarded memcpy into a fixed array refused, guarded one proven)')
+    for f in funcs:
+        for w in fixed_array_writes(f):
+            ok, why = prove_fixed_write(f, w)
+            ctx.ob(rid, '%s|%s->%s@%s' % (f.name, w[5], w[1]['n'], f.loc(w[0]['i']).split(':')[-1]), ok, why if ok else
+                   'a write into the %d-byte local array %s is not bounded: %s — input chosen by the sender overruns the stack buffer' % (w[2], w[1]['n'], why), where=f.loc(w[0]['i']))
